@@ -51,7 +51,9 @@ func headerValue(e gEnd, deco int, withTag bool, L int) string {
 	case 1:
 		u := e.uri
 		if e.sip {
-			u += ";transport=tcp;" + rt.Str("dpk", clsParam, 1, L) + "?" + rt.Str("dhk", clsHdr, 1, L) + "=" + rt.Str("dhv", clsHdr, 1, L)
+			// parameters with a meaning elsewhere in the proxy (transport selects default ports) and an arbitrary one
+			u += []string{";transport=tcp", ";transport=tls", ";transport=udp;lr", ";user=phone;maddr=10.0.0.1;ttl=5"}[rt.Choice("known-uri-param", 4)]
+			u += ";" + rt.Str("dpk", clsParam, 1, L) + "?" + rt.Str("dhk", clsHdr, 1, L) + "=" + rt.Str("dhv", clsHdr, 1, L)
 		}
 		return "\"" + rt.Str("ddn", clsQuoted, 0, L) + "\" <" + u + ">;" + rt.Str("dxk", "[a-su-z]", 1, L) + "=" + rt.Str("dxv", clsToken, 1, L) + tag
 	case 2:
